@@ -40,6 +40,14 @@ func newConfig(options []Option) *config {
 	return c
 }
 
+// newConfigWithoutEncode is for everything but Output: the WithEncode* options only choose Output's format,
+// while Mkdir, Verify and Walk always need the grown tree (paths, branches, validated names).
+func newConfigWithoutEncode(options []Option) *config {
+	c := newConfig(options)
+	c.encode = encodeDefault
+	return c
+}
+
 // Option is functional options pattern
 type Option func(*config)
 
